@@ -310,6 +310,21 @@ def step(R, e):
             u = getattr(U["unyt"], e["str"]) if e["r2"] == 0 else U["Unit"](e["str"], registry=src)
             a = U["uarr"](U["np"].array([1.0, 2.0]), u, registry=reg, bypass_validation=bool(e["bypass"]))
             obs = {"k": "res", "r": _idof(R, a.units.registry)}
+        elif op == "convert":
+            x = U["uarr"]([1.0, 2.0], e["str"], registry=reg)
+            src = R[e["r2"]]
+            u = getattr(U["unyt"], e["str2"]) if e["r2"] == 0 else U["Unit"](e["str2"], registry=src)
+            how = e["how"]
+            if how == "to":
+                obs = {"k": "res", "r": _idof(R, x.to(u).units.registry)}
+            elif how == "in_units":
+                obs = {"k": "res", "r": _idof(R, x.in_units(u).units.registry)}
+            elif how == "to_value":
+                x.to_value(u)
+                obs = {"k": "ok"}
+            else:
+                x.convert_to_units(u)
+                obs = {"k": "res", "r": _idof(R, x.units.registry)}
         elif op == "binop":
             if not e["warm"]:
                 _clear_lru()
